@@ -111,11 +111,13 @@ bool TemporalMetricStorage::buildMetrics(CollectorHandle *collector,
   }
   auto unreported_list = std::move(present->second);
   // Iterate over the unreporter metrics for `collector` and store result in `merged_metrics`
-  std::unique_ptr<AttributesHashMap> merged_metrics(new AttributesHashMap);
+  std::unique_ptr<AttributesHashMap> merged_metrics(new AttributesHashMap(delta_metrics->Limit()));
   for (auto &agg_hashmap : unreported_list)
   {
     agg_hashmap->GetAllEnteries(
-        [&merged_metrics, this](const MetricAttributes &attributes, Aggregation &aggregation) {
+        [&merged_metrics, this](const MetricAttributes &attrs, Aggregation &aggregation) {
+          // merge into the overflow entry once the limit is reached, instead of replacing it
+          const MetricAttributes &attributes = merged_metrics->GetEffectiveAttributes(attrs);
           auto agg = merged_metrics->Get(attributes);
           if (agg)
           {
@@ -148,7 +150,8 @@ bool TemporalMetricStorage::buildMetrics(CollectorHandle *collector,
     {
       // merge current delta to previous cumulative
       last_aggr_hashmap->GetAllEnteries(
-          [&merged_metrics, this](const MetricAttributes &attributes, Aggregation &aggregation) {
+          [&merged_metrics, this](const MetricAttributes &attrs, Aggregation &aggregation) {
+            const MetricAttributes &attributes = merged_metrics->GetEffectiveAttributes(attrs);
             auto agg = merged_metrics->Get(attributes);
             if (agg)
             {
